@@ -15,13 +15,16 @@ St(s) == <<s.p, s.v, s.pp, s.pv, s.vv>>
 (* the recurrence depends on the weights and the height only through sigma = w * h: a second parameter set with the same
    sigmas (half the height, twice the weights) must give the same numbers - the harness runs both, also through a tracker *)
 Alt == [h |-> R(10), wp |-> <<1, 10>>, wv |-> <<1, 20>>]
+(* a scene seen 16 times smaller (around the first measurement): small boxes, small standard deviations - same filter *)
+Shrink == <<1, 16>>
 AltOK == /\ Mul(Mul(Alt.wp, Alt.h), Mul(Alt.wp, Alt.h)) = SigP2
          /\ Mul(Mul(Alt.wv, Alt.h), Mul(Alt.wv, Alt.h)) = SigV2
 Emit == stage = 2 =>
         LET r == Run(z[1], z[2], z[3], z[4]) IN
         /\ Assert(r.spd = 1, <<"exact covariance not positive-definite", z>>)
         /\ Assert(AltOK, "alternative parameter set has other sigmas")
-        /\ PrintT(<<"REPLAY", ToJson([kind |-> "exact", z |-> z, h |-> Height, wp |-> WPos, wv |-> WVel, alt |-> Alt,
+        /\ Assert(ScaledOK(z[1], z[2], z[3], z[4], Shrink), <<"scaling law violated by the specification", z>>)
+        /\ PrintT(<<"REPLAY", ToJson([kind |-> "exact", z |-> z, h |-> Height, wp |-> WPos, wv |-> WVel, alt |-> Alt, shrink |-> Shrink,
                     ops |-> <<"p", "u", "p", "u", "p">>,
                     st |-> <<St(r.s1), St(r.s2), St(r.s3), St(r.s4), St(r.s5)>>, d |-> r.d])>>)
 =============================================================================
